@@ -64,6 +64,11 @@ Theorem den_union : forall a b : rowsel, den (union a b) = zip_tail orb (den a) 
 Proof. exact Proofs.C06_Algebra.den_union. Qed.
 Print Assumptions den_union.
 
+(* ---- FromIterator<RowSelection>: concatenation, whatever the mix of backings *)
+Theorem den_concat : forall l : list rowsel, den (concat_sel l) = flat_map den l.
+Proof. exact Proofs.C06_Algebra.den_concat. Qed.
+Print Assumptions den_concat.
+
 (* ---- split_off: head = first n rows, tail = the rest *)
 Theorem den_split_off : forall (s : rowsel) (n : nat),
   den (fst (split_off s n)) = firstn n (den s) /\ den (snd (split_off s n)) = skipn n (den s).
